@@ -437,6 +437,40 @@ func init() {
 		return outs
 	})
 
+	// strconv on document-backed strings (e.g. strconv.ParseInt(string(data), ...) inside UnmarshalJSON methods)
+	numErr := func(e *Engine, st *State, fnName string) Value {
+		return e.newError(st, e.StrConst("strconv."+fnName+": parsing document: invalid syntax"))
+	}
+	reg("strconv.ParseInt", func(e *Engine, st *State, args []Value, fn *ssa.Function) []Outcome {
+		s := args[0].(*StrV)
+		if s.Doc == nil {
+			return e.mergeOutcomes(e.execFunction(fn, args, nil, st))
+		}
+		n := s.Doc.Root
+		if n.Kind == JNum && n.I != nil {
+			return []Outcome{e.errTuple(st, n.I, nil)}
+		}
+		return []Outcome{e.errTuple(st, e.tb.Int64(0), numErr(e, st, "ParseInt"))}
+	})
+	reg("strconv.ParseFloat", func(e *Engine, st *State, args []Value, fn *ssa.Function) []Outcome {
+		s := args[0].(*StrV)
+		if s.Doc == nil {
+			if c, ok := s.Concrete(); ok {
+				f, err := strconv.ParseFloat(c, 64)
+				if err != nil {
+					return []Outcome{e.errTuple(st, FloatV(f), numErr(e, st, "ParseFloat"))}
+				}
+				return []Outcome{e.errTuple(st, FloatV(f), nil)}
+			}
+			panic(e.abort("strconv.ParseFloat on symbolic bytes"))
+		}
+		n := s.Doc.Root
+		if n.Kind == JNum {
+			return []Outcome{e.errTuple(st, e.nodeFloat(n), nil)}
+		}
+		return []Outcome{e.errTuple(st, FloatV(0), numErr(e, st, "ParseFloat"))}
+	})
+
 	// harness-side document builders
 	vpAPI["vpJObj"] = func(e *Engine, st *State, args []Value, fn *ssa.Function) []Outcome {
 		vs := e.variadicArgs(st, args[0])
